@@ -4,7 +4,7 @@ run every armed check (no evidence), undo.  VIOLATION on a twin = false alarm to
 import glob, os, re, subprocess, sys
 H = os.path.dirname(os.path.dirname(os.path.abspath(__file__)))
 armed = [l.strip() for l in open(f'{H}/tools/armed.txt') if l.strip()]
-dirs = sys.argv[1:] or sorted(glob.glob('/tmp/twin/C*/r*/')) + sorted(glob.glob(f'{H}/twins/*/'))
+dirs = sys.argv[1:] or sorted(glob.glob(f'{H}/twins/*/'))
 from concurrent.futures import ThreadPoolExecutor
 for d in dirs:
     d = d.rstrip('/') + '/'
@@ -24,7 +24,7 @@ for d in dirs:
     finally:
         subprocess.run(['git', '-C', '/repo', 'checkout', '--', '.'])
     bad = [(p, rc, out) for p, rc, out in res if rc != 0]
-    name = '/'.join(d.rstrip('/').split('/')[-2:])
+    name = '/'.join(d.rstrip('/').split('/')[-2:]) if '/tmp/' in d else d.rstrip('/').split('/')[-1]
     if not bad:
         print(f'{name}: silent on all {len(armed)} checks')
     for p, rc, out in bad:
